@@ -500,6 +500,7 @@ class FieldStream(Stream):
         except Exception as e:
             return {'ctor': o['ctor'], 'encode_error': err(e)}
         o['text'] = t
+        o['repr_is_json'] = (r1 == t)          # JSONField.__repr__ claims to be the JSON form (the subclasses' __str__ are display forms)
         o['dict'] = None if d is None else canon(d)
         o['encode_mutated'] = None
         if not same(canon(dict(x.__dict__)), canon(snap)):
@@ -574,6 +575,8 @@ class FieldStream(Stream):
         x = o['ctor']
         if o.get('encode_mutated'):
             return 'purity: encoding a %s (to_json / repr / str / to_dict) modified %s' % (cn, o['encode_mutated'])
+        if not o.get('repr_is_json', True):
+            return 'canonical: repr(%s) differs from to_json()' % cn
         if o['mutated']:
             return 'purity: %s.update modified its argument' % cn
         if not o['upd_is_new']:
@@ -755,6 +758,10 @@ class MiscStream(Stream):
             inp = ['text', render(rng, gen_value(rng, 2, False))]
         elif m == 7:
             inp = ['text', corrupt(rng, json.dumps(gen_value(rng, 2, False)))]
+        elif m == 9 and rng.random() < 0.5:
+            # Python objects that JSON cannot hold as they are: tuples become lists, int / bool / None keys become strings
+            inp = ['obj', rng.choice([{1: (1, 2), 2: (None,)}, [(1, 'x'), ()], {True: 1}, {None: 2}, {2.5: 3}, {'t': ((1,), [2])},
+                                      (1, 2, 3)])]
         elif m == 8:
             # non-ASCII payload whose length in characters is around MAX_SIZE/3, /2 or MAX_SIZE (where character, escaped and
             # UTF-8 byte lengths part ways): whatever the constructor accepts must re-decode from its own .json
@@ -1043,6 +1050,7 @@ class MiscStream(Stream):
             except Exception as e:
                 return err(e)
         if isinstance(o['text'], str):
+            o['str_repr_are_json'] = (str(p) == o['text'] and repr(p) == o['text'])
             o['dec'] = dec(o['text'])
             try:
                 back = cls.from_json(o['text'])
@@ -1094,7 +1102,9 @@ class MiscStream(Stream):
             obs = [o['ctor']] if 'text' not in o else [o['ctor'], o['text'], o['dec'], o['decx']]
         elif k == 'jdata':
             inp = case['inp']
-            ci = 'JDNone' if inp[0] == 'none' else '(JDText %s)' % cstr(inp[1]) if inp[0] == 'text' else '(JDObj %s)' % cjson(inp[1])
+            # an object reaches the model as the JSON value json.dumps makes of it (tuples -> lists, keys -> strings)
+            ci = 'JDNone' if inp[0] == 'none' else '(JDText %s)' % cstr(inp[1]) if inp[0] == 'text' else \
+                '(JDObj %s)' % cjson(json.loads(json.dumps(inp[1])) if not has_nan(inp[1]) else inp[1])
             term = 'MCJData %s %s' % (cnat(case['idx']), ci)
             obs = [o['ctor']] if 'text' not in o else [o['text'], o['data'], o['again']]
         elif k == 'gw':
@@ -1176,6 +1186,8 @@ class MiscStream(Stream):
                 if case['payload'][0] == 'unset':
                     return 'roundtrip: %s with nothing set cannot be encoded (%s)' % (name, o['text']['err'])
                 return 'roundtrip: %s.to_json raises %s' % (name, o['text']['err'])
+            if not o.get('str_repr_are_json', True):
+                return 'canonical: str/repr of %s differ from to_json()' % name
             if case['payload'][0] == 'unset':
                 if o['text'] != '' or o['dec'] is not None:
                     return 'roundtrip: %s with nothing set encodes as %r and decodes as %r' % (name, o['text'], o['dec'])
@@ -1558,6 +1570,301 @@ class MaintStream(Stream):
 
 
 # ----------------------------------------------------------------------------------------------
+# stream foreign : JSON texts NOT produced by the encoders, through every decoder
+# ----------------------------------------------------------------------------------------------
+def py_equal(a, b):
+    """Python-level equality of decoded values: dict order-insensitive, bool/int by value, floats by repr"""
+    if isinstance(a, bool) and isinstance(b, int) or isinstance(b, bool) and isinstance(a, int):
+        return a == b
+    if type(a) != type(b):
+        return False
+    if isinstance(a, dict):
+        return set(a.keys()) == set(b.keys()) and all(py_equal(a[k], b[k]) for k in a)
+    if isinstance(a, list):
+        return len(a) == len(b) and all(py_equal(x, y) for x, y in zip(a, b))
+    if isinstance(a, float):
+        return repr(a) == repr(b)
+    return a == b
+
+
+FREE_LABEL_FIELDS = ['instance', 'instance_parent', 'local_name', 'local_type', 'device_name']
+SWAPS = ['1', 1, 0, True, False, None, 1.5, [], ['a'], [['a']], {'a': 1}, '', 10 ** 40, -1, 'None', [1, None]]
+
+
+class ForeignStream(Stream):
+    name = 'foreign'
+    header = ('From Coq Require Import List ZArith NArith.\nImport ListNotations.\n'
+              'From FIM Require Import Base.Str Base.Json Model.CodecField Model.CodecMisc Model.CodecChk.\n')
+    case_type = '(fkind * list N) * json'
+    check_fn = 'check_foreign'
+    shard = 120
+    rule = ('texts not written by the encoders, for each decoder (7 JSONField classes, Tags, Gateway, PathInfo, ERO, '
+            'MaintenanceInfo, JSONData x3): members permuted, a key repeated with another value, random whitespace and escape '
+            'spellings, unknown keys first / in the middle / last, value kinds swapped ("1" / 1 / true / null / nested / 1.5 / '
+            '10^40 / -1), non-object texts; observed: accept or exception class, decoded value, re-encoded text, decode of the '
+            're-encoded text; non-trivial = the text decodes to a value; distinct by (decoder, text)')
+
+    def gen(self, rng, tier):
+        n = 500 if tier == 'quick' else 6000
+        out = []
+        for _ in range(n):
+            k = rng.randrange(13)
+            if k < 7:
+                out.append(self.gen_field(rng, k))
+            else:
+                out.append([self.gen_tags, self.gen_gw, self.gen_path, self.gen_path, self.gen_maint, self.gen_jdata][k - 7](rng))
+        return out
+
+    def corpus(self):
+        return [{'kind': ['field', 0], 'text': '{"zz": [1], "ram": 1, "core": 0,  "ram": 2}'},
+                {'kind': ['field', 0], 'text': '{"core": "1"}'}, {'kind': ['field', 5], 'text': '{"lat": 1}'},
+                {'kind': ['field', 6], 'text': '{"ptp": 1}'}, {'kind': ['field', 2], 'text': '[1]'},
+                {'kind': ['field', 3], 'text': '{"reservation_id": [{"b": 1, "a": 2}]}'},
+                {'kind': ['path', False], 'text': '{"type": "Graph", "payload": null}'},
+                {'kind': ['path', True], 'text': '{"payload": {"z2a": [], "a2z": null, "x": 1}, "type": "nope", "strict": "true"}'},
+                {'kind': ['maint'], 'text': '{"a": {"state": "Maint", "deadline": ""}, "a": {"state": 5, "expected_end": 0}}'},
+                {'kind': ['tags'], 'text': ' [ "a" , "a" ] '}, {'kind': ['gw'], 'text': '{"ipv6": "::", "ipv6_subnet": "::/0", "vlan": "100"}'},
+                {'kind': ['jdata', 1], 'text': '{"a": 1, "a": [1.50, 2e0]}'}] + load_corpus('foreign')
+
+    # ---- text builders
+    def splice(self, rng, members, strdup=True):
+        """members: list of (key, value); returns a JSON text with random order / whitespace / duplicates
+        (strdup=False: the repeated key never gets a new STRING value -- label validators are C16's subject)"""
+        members = list(members)
+        if rng.random() < 0.5:
+            rng.shuffle(members)
+        if members and rng.random() < 0.3:
+            k, v = rng.choice(members)
+            members.insert(rng.randrange(len(members) + 1), (k, rng.choice([v, None, 1] + (['dup'] if strdup else []))))
+        ws = lambda: rng.choice(['', '', ' ', '\n ', '\t'])
+        return '{' + ws() + (',' + ws()).join(render(rng, k) + ws() + ':' + ws() + render(rng, v) for k, v in members) + ws() + '}'
+
+    def unknowns(self, rng, members):
+        members = list(members)
+        for _ in range(rng.choice([0, 0, 1, 2])):
+            pos = rng.choice([0, len(members), rng.randrange(len(members) + 1)])
+            members.insert(pos, (rng.choice(['accelerators', 'zz_future', 'gpu', 'Core', 'to_json', 'forgiving']), rng.choice(SWAPS)))
+        return members
+
+    def nondict(self, rng):
+        return rng.choice(['[1]', '"x"', '5', 'null', 'true', '{', '', 'None', '[]', '{}', ' {} ', '{"a"}', 'NaN'])
+
+    def gen_field(self, rng, i):
+        cl = classes()
+        cname = cl[i].__name__
+        fs = list(cl[i]().__dict__.keys())
+        if rng.random() < 0.08:
+            return {'kind': ['field', i], 'text': self.nondict(rng)}
+        members = []
+        for f in rng.sample(fs, min(rng.choice([0, 1, 2, 3]), len(fs))):
+            r = rng.random()
+            if r < 0.55:
+                v = gen_field_value(rng, cname, f)
+                if isinstance(v, float) and (v != v or v in (float('inf'), float('-inf'))):
+                    v = 1.5
+            elif cname == 'Labels' and f not in FREE_LABEL_FIELDS:
+                v = rng.choice([1, True, None, 1.5, {'a': 1}, 0])          # type-invalid only (validators are C16's)
+            elif cname == 'Location' and f != 'postal':
+                v = rng.choice(['1', 1, True, None, [], ['a'], {'a': 1}, '', 10 ** 40, -1, 2.5, 0.0, -0.0])
+            else:
+                v = rng.choice(SWAPS)
+            members.append((f, v))
+        return {'kind': ['field', i], 'text': self.splice(rng, self.unknowns(rng, members), strdup=(cname != 'Labels'))}
+
+    def gen_tags(self, rng):
+        if rng.random() < 0.2:
+            return {'kind': ['tags'], 'text': self.nondict(rng)}
+        items = [rng.choice(TAGS_OK + ['a b', '', 5, None, ['a'], 'x' * 256]) for _ in range(rng.choice([0, 1, 2, 3]))]
+        if rng.random() < 0.8:
+            items = [x for x in items if isinstance(x, str) and x in TAGS_OK] + ([items[0]] if items and items[0] in TAGS_OK else [])
+        return {'kind': ['tags'], 'text': render(rng, items) if rng.random() < 0.8 else render(rng, rng.choice(TAGS_OK + ['a b']))}
+
+    def gen_gw(self, rng):
+        if rng.random() < 0.1:
+            return {'kind': ['gw'], 'text': self.nondict(rng)}
+        members = []
+        m = rng.randrange(6)
+        if m in (0, 1, 4):
+            members += [('ipv4_subnet', rng.choice(LABEL_POOL['ipv4_subnet'])), ('ipv4', rng.choice(LABEL_POOL['ipv4']))]
+        if m in (2, 4):
+            members += [('ipv6_subnet', rng.choice(LABEL_POOL['ipv6_subnet'])), ('ipv6', rng.choice(LABEL_POOL['ipv6']))]
+        if m == 3:
+            members += [('ipv4', rng.choice(LABEL_POOL['ipv4']))]
+        if rng.random() < 0.5:
+            members.append(('mac', rng.choice(LABEL_POOL['mac'] + [None, 5])))
+        if rng.random() < 0.3:
+            members.append((rng.choice(['vlan', 'local_name']), rng.choice(['100', ['100', '0']])))
+        return {'kind': ['gw'], 'text': self.splice(rng, self.unknowns(rng, members), strdup=False)}
+
+    def gen_path(self, rng):
+        ero = rng.random() < 0.5
+        if rng.random() < 0.1:
+            return {'kind': ['path', ero], 'text': self.nondict(rng)}
+        members = []
+        if rng.random() < 0.9:
+            members.append(('type', rng.choice(['Path', 'Path', 'Graph', 'Graph', 'path', 'None', None, 5, ['Path']])))
+        if rng.random() < 0.9:
+            pl = rng.choice(['gid', None, 5, [1, {'b': 2}], {'a2z': path_list(rng), 'z2a': path_list(rng)},
+                             {'a2z': path_list(rng), 'z2a': path_list(rng), 'hops': 3}, {'a2z': []}, {'z2a': None, 'a2z': 'x'}, {}])
+            members.append(('payload', pl))
+        if rng.random() < 0.6:
+            members.append(('strict', rng.choice(['True', 'true', 'False', 'yes', True, None, 1, 'TRUE'])))
+        return {'kind': ['path', ero], 'text': self.splice(rng, self.unknowns(rng, members))}
+
+    def gen_maint(self, rng):
+        if rng.random() < 0.1:
+            return {'kind': ['maint'], 'text': self.nondict(rng)}
+        members = []
+        for _ in range(rng.choice([0, 1, 2, 3])):
+            e = []
+            if rng.random() < 0.9:
+                e.append(('state', rng.choice(['Active', 'PreMaint', 'Maint', 'Unknown', 'maint', None, 5, ['Maint'], ''])))
+            for f in ('deadline', 'expected_end'):
+                if rng.random() < 0.6:
+                    e.append((f, rng.choice([gen_dt(rng), gen_dt(rng), None, '', 0, False, [], {}, 5, [1], True])))
+            if rng.random() < 0.2:
+                e.append((rng.choice(['reason', 'State']), rng.choice(['x', 1, None])))
+            rng.shuffle(e)
+            members.append((rng.choice(MNAMES), dict(e) if rng.random() < 0.9 else rng.choice([[], 'Maint', 5, None])))
+        return {'kind': ['maint'], 'text': self.splice(rng, members)}
+
+    def gen_jdata(self, rng):
+        idx = rng.randrange(3)
+        m = rng.randrange(4)
+        v = gen_value(rng, 2, False)
+        if m == 0:
+            t = render(rng, v)
+        elif m == 1 and isinstance(v, dict):
+            t = self.splice(rng, list(v.items()))
+        elif m == 2:
+            t = corrupt(rng, json.dumps(v))
+        else:
+            t = rng.choice(['1.50', '2e0', '-0', '[1.0, 1e1]', '{"a": 1, "a": 2}', ' null ', 'Infinity'])
+        return {'kind': ['jdata', idx], 'text': t}
+
+    # ---- decoders
+    def codec(self, kind):
+        """(decode(text) -> obj|None, view(obj), encode(obj) -> text|None)"""
+        k = kind[0]
+        if k == 'field':
+            cls = classes()[kind[1]]
+            return cls.from_json, (lambda y: canon(dict(y.__dict__))), (lambda y: y.to_json())
+        if k == 'tags':
+            from fim.slivers.tags import Tags
+            return Tags.from_json, (lambda y: list(y.tags)), (lambda y: y.to_json())
+        if k == 'gw':
+            from fim.slivers.gateway import Gateway
+            return Gateway.from_json, (lambda g: ['gw', None if g.lab is None else canon(dict(g.lab.__dict__))]), (lambda g: g.to_json())
+        if k == 'path':
+            from fim.slivers.path_info import PathInfo, ERO
+            cls = ERO if kind[1] else PathInfo
+            return cls.from_json, MiscStream().path_view, (lambda p: p.to_json())
+        if k == 'maint':
+            from fim.slivers.maintenance_mode import MaintenanceInfo
+            return MaintenanceInfo.from_json, MaintStream().info_view, (lambda m: m.to_json())
+        cls = jd_classes()[kind[1]]
+        return (lambda t: cls(t)), (lambda x: [x.json, loads_tok(x.json)]), (lambda x: x.json)
+
+    def observe(self, case):
+        dec, view, enc = self.codec(case['kind'])
+        o = {}
+        try:
+            y = dec(case['text'])
+        except Exception as e:
+            return {'dec': err(e)}
+        if y is None:
+            return {'dec': None}
+        o['dec'] = view(y)
+        try:
+            o['reenc'] = enc(y)
+        except Exception as e:
+            o['reenc'] = err(e)
+            return o
+        o['unchanged_by_encode'] = same(view(y), o['dec'])
+        try:
+            y2 = dec(o['reenc'])
+            o['dec2'] = None if y2 is None else view(y2)
+            o['reenc2'] = None if y2 is None else enc(y2)
+        except Exception as e:
+            o['dec2'] = err(e)
+        return o
+
+    def tags_ok(self, case):
+        return MiscStream().tags_ok({'args': [], 'textx': case['text']})
+
+    def to_coq(self, case, o):
+        k = case['kind']
+        ck = {'field': lambda: 'FKField %s' % cnat(k[1]), 'tags': lambda: 'FKTags %s' % clist([cstr(x) for x in self.tags_ok(case)]),
+              'gw': lambda: 'FKGateway', 'path': lambda: 'FKPath %s' % cbool(k[1]), 'maint': lambda: 'FKMaint',
+              'jdata': lambda: 'FKJData %s' % cnat(k[1])}[k[0]]()
+        if is_err(o['dec']):
+            obs = [o['dec']]
+        elif o['dec'] is None:
+            obs = [None]
+        elif is_err(o.get('reenc')):
+            obs = [o['dec'], o['reenc']]
+        else:
+            obs = [o['dec'], o['reenc'], o['dec2']]
+        return '((%s, %s), %s)' % (ck, cstr(case['text']), cjson(obs))
+
+    def nothing_set(self, case, o):
+        """decoded values for which 'encodes as empty text, reads back as absent' is the stated behaviour"""
+        k = case['kind'][0]
+        if k == 'field':
+            return o['reenc'] == ''
+        if k == 'path':
+            return o['dec'][1] == ['raw', None]
+        return False
+
+    def oracle(self, case, o):
+        if is_err(o['dec']) or o['dec'] is None:
+            return None              # which texts are refused is fixed by the model comparison, not by the property
+        name = '/'.join(str(x) for x in case['kind'])
+        if case['kind'][0] == 'field':
+            name = classes()[case['kind'][1]].__name__
+        if is_err(o['reenc']):
+            return 'decode-closure: %s decoded %r but the decoded value cannot be encoded (%s)' % (name, case['text'][:80], o['reenc']['err'])
+        if not o['unchanged_by_encode']:
+            return 'purity: encoding the value %s decoded from %r modified it' % (name, case['text'][:80])
+        if o['dec2'] is None and self.nothing_set(case, o):
+            return None
+        if is_err(o['dec2']) or o['dec2'] is None or not py_equal(o['dec2'], o['dec']):
+            tag = ''
+            if name == 'Capacities' and isinstance(o['dec'], dict) and isinstance(o['dec2'], dict):
+                nonev = [f for f in o['dec'] if o['dec'][f] is None and o['dec2'].get(f) == 0]
+                rest = [f for f in o['dec'] if f not in nonev and not py_equal(o['dec'][f], o['dec2'].get(f))]
+                if nonev and not rest:
+                    return 'roundtrip: Capacities decoded from a foreign text re-encodes to a text that decodes differently [None-valued field %s]' % nonev[0]
+            return ('decode-closure: %s: the value decoded from %r re-encodes as %r, which decodes to something else: %r vs %r' % (
+                name, case['text'][:80], o['reenc'], o['dec2'], o['dec']))
+        if o.get('reenc2') != o['reenc']:
+            return 'canonical: %s: re-encoding is not a fixed point (%r then %r)' % (name, o['reenc'], o.get('reenc2'))
+        return None
+
+    def key(self, case, o):
+        if is_err(o['dec']) or o['dec'] is None:
+            return None
+        return stable_hash(case)
+
+    def describe(self, case, o):
+        return {'case': case, 'impl': {k: (v if not isinstance(v, str) or len(v) < 200 else v[:200]) for k, v in o.items()}}
+
+    def histogram(self, cases, obs):
+        h = {'decoders': {}, 'accepted': 0, 'absent': 0, 'rejected': {}, 'renormalised_to_absent': 0}
+        for c, o in zip(cases, obs):
+            k = c['kind'][0]
+            h['decoders'][k] = h['decoders'].get(k, 0) + 1
+            if is_err(o['dec']):
+                h['rejected'][o['dec']['err']] = h['rejected'].get(o['dec']['err'], 0) + 1
+            elif o['dec'] is None:
+                h['absent'] += 1
+            else:
+                h['accepted'] += 1
+                h['renormalised_to_absent'] += o.get('dec2') is None
+        return h
+
+
+# ----------------------------------------------------------------------------------------------
 # replays of the ..._refuted witnesses of Properties/C03.v on the implementation
 # ----------------------------------------------------------------------------------------------
 def w_tuple_value():
@@ -1578,7 +1885,7 @@ class C03(Check):
     pid = 'C03'
     translators = ['gen_codec']
     model_targets = ['Model/CodecChk.vo']
-    streams = [JsonStream(), FieldStream(), MiscStream(), MaintStream()]
+    streams = [JsonStream(), FieldStream(), MiscStream(), MaintStream(), ForeignStream()]
     design_ref = 'DESIGN.md section 7, C03; notes/C03.md'
     trusted_base = [
         'Coq 8.16.1 kernel (coqc), vm_compute for the correspondence evaluation; no native_compute',
